@@ -178,6 +178,11 @@ func rebootIncompleteBlobSize(key string, pather *pather) (size uint64, ok bool,
 	if err != nil {
 		return 0, false, fmt.Errorf("read blob size sidecar file: %w", err)
 	}
+	if len(blobSizeData) == 0 {
+		// The service crashed after creating the size file but before writing to it.
+		// Same as a missing size file: we fail-open by evicting the blob.
+		return 0, false, nil
+	}
 	blobSize, err := strconv.Atoi(string(blobSizeData))
 	if err != nil {
 		return 0, false, fmt.Errorf("blob size sidecar file is in unexpected format: %w", err)
